@@ -55,9 +55,17 @@ def main(argv):
         res = Resolver(repo)
         run = Run(prop, tier, repo, res)
         mod = importlib.import_module("sa.rules.%s" % prop.lower())
-        mod.run(run)
+        incomplete = None
+        try:
+            mod.run(run)
+        except AnalysisError as e:
+            # a violation established before the analysis lost its footing stands on its own (the code it
+            # was read from is the code under test); without one, an analysis that cannot proceed is exit 2
+            if not any(o["status"] == "violation" for o in run.obligations):
+                raise
+            incomplete = str(e)
         selftest = None
-        if tier == "thorough" and not os.environ.get("VERIF_NO_SELFTEST"):
+        if incomplete is None and tier == "thorough" and not os.environ.get("VERIF_NO_SELFTEST"):
             from sa import selftest as st
 
             selftest = st.run_selftest(prop, run)
@@ -73,6 +81,8 @@ def main(argv):
                 print("  info: %s" % i)
         for l in lines:
             print(l)
+        if incomplete:
+            print("NOTE property=%s analysis stopped after the violation(s) above: %s" % (prop, incomplete))
         if replay:
             with open(replay) as f:
                 rp = json.load(f)
